@@ -89,7 +89,7 @@ Verdict(ev) ==
          << OperandOK(ev.a) /\ OperandOK(ev.b) /\ ResultOK(ev, IF ev.c = 0 THEN AffOf(ev.a) ELSE AffOf(ev.b)), AliasClass(ev) >>
     [] ev.ev \in {"pt.Set", "pt.NewFrom", "pt.Rescale"} ->
          << OperandOK(ev.p) /\ ResultOK(ev, AffOf(ev.p))
-              /\ (ev.ev = "pt.Rescale" => Proj(ev.out) = FromAff(AffOf(ev.p))), {} >>
+              /\ (ev.ev = "pt.Rescale" /\ ~IsInf(AffOf(ev.p)) => BigEq(Proj(ev.out)[3], 1)), {} >>
     [] ev.ev = "pt.Identity"  -> << ResultOK(ev, Inf), {} >>
     [] ev.ev = "pt.Generator" -> << ResultOK(ev, GenPt), {} >>
     [] ev.ev = "pt.Equal" ->
